@@ -149,8 +149,15 @@ fn try_rewrite_stmts_for_tailrec_without_using_return_value(
   }
 }
 
-fn tail_rec_param_name(name: &str) -> String {
+pub(super) fn tail_rec_param_name(name: &str) -> String {
   format!("_tailrec_param_{name}")
+}
+
+/// Is `first_parameter` the closure-context parameter of a function? It is called `_this`, or, once
+/// the tail-recursion rewrite has renamed the parameters of the function, `_tailrec_param__this`.
+pub(super) fn is_context_parameter(heap: &Heap, first_parameter: PStr) -> bool {
+  first_parameter == PStr::UNDERSCORE_THIS
+    || first_parameter.as_str(heap) == tail_rec_param_name(PStr::UNDERSCORE_THIS.as_str(heap))
 }
 
 fn optimize_function_by_tailrec_rewrite_aux(
